@@ -73,13 +73,19 @@ partial def zero (file : GFile) : GTy → GVal
     | some fs => .struct n (fs.map fun (f, t) => (f, zero file t))
     | none => .nilv
 
-/-- a type no Go compiler accepts as the type of a variable (array longer than the address space) -/
-partial def absurdTy : GTy → Bool
+mutual
+/-- a type no Go compiler accepts as the type of a variable (array longer than the address space);
+    a total definition (not `partial`), so that theorems can evaluate the guard of `var x T` -/
+def absurdTy : GTy → Bool
   | .array n e => n > 100000000 || absurdTy e
-  | .struct _ fs => fs.any fun (_, t) => absurdTy t
+  | .struct _ fs => absurdFields fs
   | .ptr e => absurdTy e
   | .slice e => absurdTy e
   | _ => false
+def absurdFields : List (String × GTy) → Bool
+  | [] => false
+  | (_, t) :: rest => absurdTy t || absurdFields rest
+end
 
 def gvalEq : GVal → GVal → Option Bool
   | .unit, .unit => some true
